@@ -1209,6 +1209,7 @@ func c17(c *hx.Ctx) {
 	c17LowLevel(c)
 	c17J2k(c)
 	c17CodecLevel(c)
+	c17AdapterModels(c)
 	c.Sample(map[string]any{"ops": []string{"val-baseline 65536 65536 1 1 90", "val-jpegls 0 2 2 1 8", "val-jpeglsnear 4 2 2 1 2 200", "val-j2k 256 16 16 1 8 -1 0 5 1 64 64 0 0 80 0 1"}})
 }
 
